@@ -116,6 +116,9 @@ def gen_case(rng, i, big=False):
     c["r0"] = [core.dyadic(rng, 8, 2) for _ in range(n)] if rng.random() < 0.5 and not (c["fb"] and c["fb"]["mode"] == "model") else None
     # hyper-parameters read at every step may be reassigned (attribute assignment) on the initialised node between two runs:
     # the node is built and warmed up with c["pre"], then `node.lr = ...` / `node.activation = ...` set the values of the checked run
+    # input FORMS of the same values: bias as a (units,1) column or a 1-D (units,) vector; per-unit lr as ndarray or python list
+    c["bias_form"] = rng.choice(["col", "1d"])
+    c["lr_form"] = rng.choice(["ndarray", "list"])
     c["pre"] = None
     if rng.random() < 0.3 and not (c["fb"] and c["fb"]["mode"] == "model"):
         pre = {"lr": Fraction(rng.randint(0, 8), 8) if rng.random() < 0.7 else [Fraction(rng.randint(0, 8), 8) for _ in range(n)]}
@@ -140,15 +143,23 @@ def gen_init_case(rng):
 
 
 # ------------------------------------------------------------------------------------------ the real library
-def lr_value(lr):
-    return np.array([float(fr(v)) for v in lr]) if isinstance(lr, list) else (int(lr) if isinstance(lr, int) else float(fr(lr)))
+def lr_value(lr, form="ndarray"):
+    if isinstance(lr, list):
+        v = [float(fr(x)) for x in lr]
+        return v if form == "list" else np.array(v)
+    return int(lr) if isinstance(lr, int) else float(fr(lr))
+
+
+def bias_value(c):
+    b = fvec(c["bias"])
+    return b if c.get("bias_form") == "1d" else b.reshape(-1, 1)
 
 
 def reassign(node, c):
     """attribute assignment on the live node (goes to the hypers through Node.__setattr__)"""
     pre = c.get("pre")
     if pre:
-        node.lr = lr_value(c["lr"])
+        node.lr = lr_value(c["lr"], c.get("lr_form", "ndarray"))
         if "act" in pre:
             node.activation = exact_fn(c["act"])
 
@@ -162,7 +173,7 @@ def build(c):
     pre = c.get("pre") or {}
     act0 = pre.get("act", c["act"])
     act = exact_fn(act0) if act0 in EXACT else act0
-    lr = lr_value(pre.get("lr", c["lr"]))
+    lr = lr_value(pre.get("lr", c["lr"]), c.get("lr_form", "ndarray"))
     kw = dict(lr=lr, activation=act, equation=c["eq"], noise_rc=0.0, noise_in=0.0, noise_fb=0.0, name=uname("res"))
     rec = []
     if c["fb"]:
@@ -188,9 +199,9 @@ def build(c):
         if c["Winfmt"] == "csr":
             Win = sp.csr_matrix(Win)
         if c["win_mode"] == "split":
-            node = Reservoir(W=W, Win=Win, bias=fvec(c["bias"]).reshape(-1, 1), **kw)
+            node = Reservoir(W=W, Win=Win, bias=bias_value(c), **kw)
         elif c["win_mode"] == "split_units":
-            node = Reservoir(W=W, Win=Win, bias=fvec(c["bias"]).reshape(-1, 1), input_bias=True, units=n, **kw)
+            node = Reservoir(W=W, Win=Win, bias=bias_value(c), input_bias=True, units=n, **kw)
         elif c["win_mode"] == "biascol":
             node = Reservoir(W=W, Win=Win, input_bias=True, **kw)
         else:
@@ -263,7 +274,8 @@ def run_impl(c):
                     seen.append(fbs[t].tolist())
                 else:
                     seen.append([])
-                outs.append(node.call(X[t:t + 1], from_state=r0 if t == 0 else None).ravel().tolist())
+                row = node.call(X[t:t + 1], from_state=r0 if t == 0 else None)
+                outs.append(row.ravel().tolist() if row.shape == (1, n) else row.tolist())
             o["outs"], o["fbs"] = outs, seen
     o["sfin"] = np.asarray(node.internal_state).ravel().tolist()
     o["rfin"] = node.state().ravel().tolist()
@@ -397,13 +409,20 @@ def correspondence(ctx):
             terms.append("false")
             keep.append({"scenario": jsonable(c), "impl_error": repr(e)})
             continue
-        terms.append(to_coq(c, o))
+        try:
+            terms.append(to_coq(c, o))
+        except Exception as e:   # observation of the wrong shape cannot even be printed as the expected Gallina term
+            terms.append("false")
+            keep.append({"scenario": jsonable(c), "impl_error": "unprintable observation: %r" % (e,)})
+            continue
         keep.append({"scenario": jsonable(c), "observed": jsonable(strip(o))})
         for key in ("eq:" + c["eq"], "act:" + c["act"], "W:" + c["Wfmt"], "bias:" + (c["win_mode"] if not c["seeded"] else "seeded"),
                     "lr:" + ("vector" if isinstance(c["lr"], list) else "scalar"),
                     "fb:" + (c["fb"]["mode"] + "/" + c["fb"]["fb_act"] if c["fb"] else "none"),
                     "start:" + ("from_state" if c["r0"] is not None else "current") + ("+warm" if c["warm"] is not None else ""),
-                    "how:" + c["how"], "reassigned:" + ("none" if not c.get("pre") else "+".join(
+                    "how:" + c["how"], "forms:bias-" + (c["bias_form"] if (not c["seeded"] and c["win_mode"].startswith("split")) else "n/a")
+                    + ",lr-" + (c["lr_form"] if (isinstance(c["lr"], list) or (c.get("pre") and isinstance(c["pre"]["lr"], list))) else "scalar"),
+                    "reassigned:" + ("none" if not c.get("pre") else "+".join(
                         ["lr:%s->%s" % ("vec" if isinstance(c["pre"]["lr"], list) else "scalar", "vec" if isinstance(c["lr"], list) else "scalar")]
                         + (["activation"] if "act" in c["pre"] else [])))):
             count(key)
@@ -421,7 +440,7 @@ def correspondence(ctx):
     failing, err = core.run_cases(ctx.pid, IMPORTS, terms, chunk=60)
     return {"evaluations": len(terms), "distinct_nontrivial": len(nt),
             "rule": "seeded Reservoir scenarios (units 1-6, in_dim 1-3, T<=10; both equations; scalar/per-unit lr in [0,1]; W dense/csr/csc or "
-                    "seeded initialisers read back; bias split/in-Win/off; exact and named activations; feedback stand-alone or inside a Model; "
+                    "seeded initialisers read back; bias split (column or 1-D vector)/in-Win/off; per-unit lr as ndarray or list; exact and named activations; feedback stand-alone or inside a Model; "
                     "start = current state after a warm-up run or from_state; run() or step-wise call(); lr / activation reassigned by attribute assignment on the initialised node between the warm-up and the checked run) plus Win/bias shape conventions incl. "
                     "rejected shapes; non-trivial = >= 2 steps, some output non-zero, W.r non-zero at some step, output changes between steps; "
                     "distinct by scenario text",
@@ -440,7 +459,38 @@ def close(a, b):
     return a.shape == b.shape and np.allclose(a, b, rtol=1e-10, atol=1e-12)
 
 
+def uses_forms(c):
+    """which non-canonical input forms the scenario really exercises"""
+    out = []
+    if c.get("kind") == "init":
+        return out
+    if c.get("bias_form") == "1d" and not c["seeded"] and c["win_mode"].startswith("split"):
+        out.append("bias_form")
+    if c.get("lr_form") == "list" and (isinstance(c["lr"], list) or (c.get("pre") and isinstance(c["pre"]["lr"], list))):
+        out.append("lr_form")
+    return out
+
+
 def _judge(c):
+    """The law must hold whatever documented FORM the values are given in.  A violation that disappears when the same values are
+    given in the canonical form (bias column, lr ndarray) is attributed to the form."""
+    v = _judge0(c)
+    forms = uses_forms(c) if v else []
+    if not forms:
+        return v
+    canon = {"bias_form": "col", "lr_form": "ndarray"}
+    if _judge0(dict(c, **canon)) is not None:
+        return v
+    for f in forms:
+        # canonical everywhere except form f: does f alone break the law?
+        if _judge0(dict(c, **dict(canon, **{f: c[f]}))) is not None:
+            key, what = {"bias_form": ("bias:1d-vector", "a bias of shape (units,) (accepted by initialize) does not give the trajectory of the same bias as a (units,1) column"),
+                         "lr_form": ("lr:list", "a per-unit leak rate given as a python list (array-like of shape (units,)) does not give the trajectory of the ndarray form")}[f]
+            return _viol(key, what + " -- " + v["what"], c, v.get("expected"), v.get("observed"))
+    return v
+
+
+def _judge0(c):
     """Decide the law step by step on the real node: each returned row must equal the documented formula applied to the
     previous *observed* state, with the matrices the node itself holds (no Coq model involved)."""
     if c.get("kind") == "init":
